@@ -9,7 +9,8 @@ Transcription (code order, with the alert each failing check sends) of
   "version was advertised" check, the downgrade-canary check, dispatch on the version;
 * TLS 1.3 (/repo/handshake_client_tls13.go): `handshake` (key-share consistency),
   `checkServerHelloOrHRR`, `processHelloRetryRequest` (up to and including the uTLS section's PSK
-  refusal), `processServerHello`, the key selection of `establishHandshakeKeys`,
+  refusal), `processServerHello`, the key selection of `establishHandshakeKeys`
+  (`ecdheKeyFor` / `mlkemKeyFor`: the private key generated for the share the server selected),
   the ALPN check of `readServerParameters`, `utlsReadServerCertificate`/`decompressCert`'s
   algorithm checks;
 * TLS 1.0–1.2 (/repo/handshake_client.go, key_agreement.go): `pickCipherSuite`,
@@ -112,6 +113,12 @@ structure ClientCtx where
   hybridKeys : Bool             -- ML-KEM decapsulation key + its X25519 companion retained
   pskSuite : Option Nat := none -- cipher suite of the session behind the PSK identity
   session12 : Option Session12 := none
+  -- per-share private keys (`KeySharePrivateKeys` after the D06 repair): `Mlkem` / `MlkemEcdhe` held,
+  -- groups with an entry in `EcdheKeys` / `MlkemKeys`. Defaults describe a key set without maps.
+  mlkem : Bool := hybridKeys
+  mlkemEcdhe : Bool := hybridKeys
+  keyGroups : List Nat := []
+  mlkemGroups : List Nat := []
   deriving DecidableEq, Repr
 
 /-- fields of a ServerHello / HelloRetryRequest as `serverHelloMsg.unmarshal` produces them. -/
@@ -273,11 +280,26 @@ def finalHello (impl : Impl) (r : Response) : ServerHello :=
 def sharesAfter (impl : Impl) (o : Offer) (r : Response) : List Nat :=
   if hrrGroup impl r != 0 then [hrrGroup impl r] else o.shareGroups
 
-def ecdheAfter (impl : Impl) (ctx : ClientCtx) (r : Response) : Nat :=
-  if hrrGroup impl r != 0 then hrrGroup impl r else ctx.ecdheGroup
+def isHybrid (g : Nat) : Bool := g == x25519MLKEM768 || g == x25519Kyber768Draft00
 
-def hybridAfter (impl : Impl) (ctx : ClientCtx) (r : Response) : Bool :=
-  if hrrGroup impl r != 0 then false else ctx.hybridKeys
+/-- `keySharePrivateKeys.ecdheKeyFor`: curve of the ECDH private key used for the share of group `g`
+(0 = no key): the key recorded for `g` (X25519 for a hybrid group), else the hybrid share's own
+X25519 key, else the single classical key. -/
+def ecdheKeyCurve (ctx : ClientCtx) (g : Nat) : Nat :=
+  if ctx.keyGroups.contains g then (if isHybrid g then x25519 else g)
+  else if isHybrid g && ctx.mlkemEcdhe then x25519
+  else ctx.ecdheGroup
+
+/-- `keySharePrivateKeys.mlkemKeyFor`: an ML-KEM decapsulation key is held for the share of group `g`. -/
+def mlkemKeyHeld (ctx : ClientCtx) (g : Nat) : Bool := ctx.mlkemGroups.contains g || ctx.mlkem
+
+/-- curve of the key `establishHandshakeKeys` runs ECDH with for the final ServerHello's group: after a
+HelloRetryRequest selecting a group the key set is the fresh `{curveID, ecdhe}` pair. -/
+def ecdheAfter (impl : Impl) (ctx : ClientCtx) (r : Response) (g : Nat) : Nat :=
+  if hrrGroup impl r != 0 then hrrGroup impl r else ecdheKeyCurve ctx g
+
+def hybridAfter (impl : Impl) (ctx : ClientCtx) (r : Response) (g : Nat) : Bool :=
+  if hrrGroup impl r != 0 then false else mlkemKeyHeld ctx g
 
 /-- `processHelloRetryRequest` for `hs.serverHello = r.hello1`. -/
 def hrrGuards (impl : Impl) (o : Offer) (ctx : ClientCtx) (r : Response) : List Guard :=
@@ -293,8 +315,6 @@ def hrrGuards (impl : Impl) (o : Offer) (ctx : ClientCtx) (r : Response) : List 
     (r.recVersion == tls12, .protocolVersion),                   -- record carrying the next ServerHello
     (r.hello2.isSome, .none) ] ++
   checkSHGuards impl o (r.hello2.getD default) (some h.suite)
-
-def isHybrid (g : Nat) : Bool := g == x25519MLKEM768 || g == x25519Kyber768Draft00
 
 /-- hash of a TLS 1.3 suite: TLS_AES_256_GCM_SHA384 uses SHA-384, the others SHA-256. -/
 def suiteHash13 (s : Nat) : Nat := if s == 0x1302 then 384 else 256
@@ -318,8 +338,9 @@ def sh13Guards (impl : Impl) (o : Offer) (ctx : ClientCtx) (r : Response) : List
     (!psk || (match ctx.pskSuite with | some s => impl.suites13.contains s | none => false), .internalError),
     (!psk || (match ctx.pskSuite with | some s => suiteHash13 s == suiteHash13 sh.suite | none => false), .illegalParameter),
     (!isHybrid sh.shareGroup || sh.shareLen == 1088 + 32, .illegalParameter),
-    (shareSizeOk (ecdheAfter impl ctx r) ecdheLen, .illegalParameter),    -- ECDH with the retained key
-    (!isHybrid sh.shareGroup || hybridAfter impl ctx r, .internalError) ]
+    (ecdheAfter impl ctx r sh.shareGroup != 0, .internalError),           -- ecdheKeyFor: a key for the selected group
+    (shareSizeOk (ecdheAfter impl ctx r sh.shareGroup) ecdheLen, .illegalParameter),    -- ECDH with that key
+    (!isHybrid sh.shareGroup || hybridAfter impl ctx r sh.shareGroup, .internalError) ]
 
 /-- `utlsReadServerCertificate` / `decompressCert`: algorithm checks. -/
 def certGuards (o : Offer) (c : CertMsg) : List Guard :=
@@ -332,7 +353,9 @@ def certGuards (o : Offer) (c : CertMsg) : List Guard :=
       (valid, .badCertificate) ]
 
 def guards13 (impl : Impl) (o : Offer) (ctx : ClientCtx) (r : Response) : List Guard :=
-  [ (ctx.ecdheGroup != 0 && !o.shareGroups.isEmpty, .internalError) ] ++
+  -- consistency check of `handshake`: applies to a plain ServerHello only (a hello without usable key
+  -- share gets its key in `processHelloRetryRequest`)
+  [ (isHRR impl r.hello1 || ((ctx.ecdheGroup != 0 || ctx.mlkemEcdhe) && !o.shareGroups.isEmpty), .internalError) ] ++
   checkSHGuards impl o r.hello1 none ++
   (if isHRR impl r.hello1 then hrrGuards impl o ctx r else []) ++
   sh13Guards impl o ctx r ++
